@@ -58,6 +58,7 @@ def zero : Val := .fin 0 1
 inductive K where
   | lpar | rpar | comma | ws | fix | low | init | up | rep
   | sd | var       -- SD / VAR options of a `diag_item` (omega_record.py)
+  | block          -- the `block` subtree `BLOCK(n)` among the children of an omega record root
   | other          -- COMMENT, NEWLINE, CONT, …: never inspected by theta_record.py
   deriving DecidableEq, Repr, Inhabited
 
@@ -197,30 +198,55 @@ def setFix (cs : List TNode) (p : Param) : List TNode :=
 def needUpper (p : Param) : Bool := p.upper.lt maxUpper
 def needLower (p : Param) : Bool := minLower.lt p.lower || needUpper p
 
-/-- step 3: upper bound.  (`if up != param.upper` compares a tree with a float and is
-    always true in Python.) -/
-def setUpper (cs : List TNode) (p : Param) : List TNode :=
-  let haveU := hasK .up cs
-  if !haveU && needUpper p then addUpper (numNode .up p.upperS p.upper) cs
-  else if haveU && !needUpper p then removeUpper cs
-  else replaceBound (numNode .up p.upperS p.upper) cs
+/-- `cur_upper`: the upper bound as it is read back from the current tokens
+    (`uptok if isinstance(uptok, float) and uptok != MAX_UPPER_BOUND else INF`) -/
+def curUpper (uptok : Option Val) : Val :=
+  match uptok with
+  | none => .pinf
+  | some v => if v = maxUpper then .pinf else v
 
-/-- step 4: lower bound; `haveL`, `n` are read before step 3 in Python (`low`, `n` are
-    computed before the upper bound is touched) — step 3 never changes them. -/
-def setLower (haveL : Bool) (n : Nat) (cs : List TNode) (p : Param) : List TNode :=
+/-- `cur_lower` -/
+def curLower (lowtok : Option Val) : Val :=
+  match lowtok with
+  | none => .ninf
+  | some v => if v = minLower then .ninf else v
+
+/-- the body of the upper-bound branch; the flag is `removed_upper_bound` -/
+def setUpperDo (cs : List TNode) (p : Param) : List TNode × Bool :=
+  let haveU := hasK .up cs
+  if !haveU && needUpper p then (addUpper (numNode .up p.upperS p.upper) cs, false)
+  else if haveU && !needUpper p then (removeUpper cs, true)
+  else (replaceBound (numNode .up p.upperS p.upper) cs, false)
+
+/-- step 3: upper bound, touched only when its value changes (fix c1795fa) -/
+def setUpper (cs : List TNode) (p : Param) : List TNode × Bool :=
+  if curUpper (valK .up cs) ≠ p.upper then setUpperDo cs p else (cs, false)
+
+/-- the body of the lower-bound branch -/
+def setLowerDo (haveL : Bool) (n : Nat) (cs : List TNode) (p : Param) : List TNode :=
   if !haveL && needLower p then addParens (addLower (numNode .low p.lowerS p.lower) cs)
   else if haveL && !needLower p then
     (if n = 1 then removeParens (removeLower cs) else removeLower cs)
   else replaceBound (numNode .low p.lowerS p.lower) cs
+
+/-- step 4: lower bound; `haveL`, `lowtok`, `n` are read before step 3 in Python (step 3 never changes
+    them).  Touched when the value changes, when a lower bound must be added because an upper bound is
+    needed, or when the upper bound was just removed and the lower bound is no longer needed. -/
+def setLower (haveL : Bool) (n : Nat) (lowtok : Option Val) (removedU : Bool) (cs : List TNode) (p : Param) :
+    List TNode :=
+  if curLower lowtok ≠ p.lower || (!haveL && needLower p) || (removedU && haveL && !needLower p) then
+    setLowerDo haveL n cs p
+  else cs
 
 /-- `_update_theta` for one `theta` subtree. -/
 def updItem (cs : List TNode) (p : Param) : List TNode :=
   let c1 := setInit cs p
   let c2 := setFix c1 p
   let haveL := hasK .low c2
+  let lowtok := valK .low c2
   let n := multiple c2
   let c3 := setUpper c2 p
-  setLower haveL n c3 p
+  setLower haveL n lowtok c3.2 c3.1 p
 
 /-! ### the record -/
 
